@@ -160,7 +160,21 @@ def step0(pm: PM):
                 return new
         return None
 
-    return lambda r: rewrite(r, atom_fn, key_fn)
+    fn = lambda r: rewrite(r, atom_fn, key_fn)
+    fn.key_fn = key_fn
+    return fn
+
+
+def map_key_deep(k, rat_fn, key_fn):
+    """map_key that also offers every (sub)key tuple to key_fn — object values are keys, not numbers"""
+    if isinstance(k, Rat):
+        return rat_fn(k)
+    if isinstance(k, tuple):
+        r = key_fn(k) if key_fn is not None else None
+        if r is not None:
+            return r
+        return tuple(map_key_deep(x, rat_fn, key_fn) for x in k)
+    return k
 
 
 def collect(hyp, init, inv, objkeys, val_key):
@@ -241,7 +255,11 @@ def compare_step0(ck, fi, fn, pi: PM, pn: PM):
 
     def norm(v, s, r):
         k = val_key(v)
-        return poly.map_key(poly.map_key(k, s), lambda x: rename_syms(x, r))
+        def ren_key(kk):
+            if kk and kk[0] in ("obj", "list", "maybe", "str?") and isinstance(kk[-1], str):
+                return kk[:-1] + (r(kk[-1]),)
+            return None
+        return map_key_deep(map_key_deep(k, s, getattr(s, "key_fn", None)), lambda x: rename_syms(x, r), ren_key)
 
     ci, cn = pi.solver_calls(), pn.solver_calls()
     if len(ci) == 1 and len(cn) == 1:
